@@ -114,6 +114,16 @@ def seq_term(body, in_sub):
     return ["Seq"] + [stmt_term(s, in_sub) for s in body]
 
 
+def _bytesify(t):
+    if not isinstance(t, list):
+        return t
+    if t[0] == "Store" and t[1] in ("a", "b"):
+        return ["Store", t[1], ["Bytes", "41"]]
+    if t[0] == "Pop" and t[1][0] == "Load" and t[1][1] in ("a", "b"):
+        return ["Log", t[1]]
+    return [_bytesify(x) for x in t]
+
+
 def make_program(body, placement, varkind="auto"):
     """placement: 'main' | 'sub' ; varkind: 'auto' | 'reserved' | 'abi' (abi.Uint64 set/get) | 'raw' (bare
     ScratchSlot through ScratchStore/ScratchLoad)"""
@@ -121,11 +131,19 @@ def make_program(body, placement, varkind="auto"):
     vb = ["u", 12] if varkind == "reserved" else "u"
     if varkind in ("abi", "raw"):
         va = vb = varkind
+    fix = (lambda t: t)
+    if varkind == "bytes":
+        # byte-string variables, stored from a literal and consumed by an opcode that needs bytes (an unset slot
+        # holds the integer 0: reading it there is a run-time type error)
+        va = vb = "b"
+        fix = _bytesify
     if placement == "main":
-        main = ["Seq"] + [stmt_term(s, False) for s in body] + [["Int", 1]]
+        main = ["Seq"] + [fix(stmt_term(s, False)) for s in body] + [["Int", 1]]
         return {"mode": "A", "vars": {"a": va, "b": vb, "i": "u"}, "subs": {}, "main": main}
-    sub = {"params": [], "ret": "none", "body": seq_term(body, True), "locals": ["a", "b", "i"], "init_locals": False,
+    sub = {"params": [], "ret": "none", "body": fix(seq_term(body, True)), "locals": ["a", "b", "i"], "init_locals": False,
            "local_types": {}}
+    if varkind == "bytes":
+        sub["local_types"] = {"a": "b", "b": "b"}
     if varkind == "reserved":
         sub["local_slots"] = {"a": 11, "b": 12}
     if varkind in ("abi", "raw"):
